@@ -19,6 +19,9 @@ def probeDist (n h j : Nat) : Nat := (j + n - h) % n
 structure WF (lt : Order) (s : HH) : Prop where
   expPos : 1 ≤ s.exp
   expLe : s.exp ≤ 31
+  /-- the initial exponent (what `reset` goes back to) is valid and never above the current one -/
+  expInitPos : 1 ≤ s.expInit
+  expInitLe : s.expInit ≤ s.exp
   heapSize : s.heap.size = 2 ^ s.exp + 2
   hashSize : s.hash.size = 2 ^ (s.exp + 1)
   countLe : s.count ≤ 2 ^ s.exp
